@@ -13,7 +13,7 @@ def gen_cases(rng, n):
     """Integer (dyadic after scaling) cost tables: exact in float64, so TLC can redo the sums."""
     cases = []
     forms = ["vector", "vector", "vector", "float", "int", "np.float64", "np.float32", "np.int64",
-             "np.int32", "np.uint8", "np.float16", "np.longdouble"]
+             "np.int32", "np.uint8", "np.float16", "np.longdouble", "array1"]
     for idx in range(n):
         kind = idx % 10
         T = rng.choice([1, 2, 3, 4, 5, 6, 8, 12]) if kind < 6 else rng.randint(13, 60)
@@ -81,6 +81,7 @@ def gen_cases(rng, n):
                 beta = [b % 1024 for b in beta]
         cases.append({"fn": "assign", "cost": cost, "beta": beta, "beta_form": form, "scale": s,
                       "table_dtype": tdt, "vector_dtype": vdt,
+                      "big_endian": tdt not in ("int8", "float16") and rng.random() < 0.12,
                       "order": rng.choice(["C", "C", "F", "S"]), "readonly": rng.random() < 0.3,
                       "T": T, "K": K})
     return cases
